@@ -72,6 +72,7 @@ public:
     uint64_t next_inode = 1, next_handle = 1;
     uint64_t n_events = 0;
     RPolicy default_rpolicy;        // applied to files opened for reading
+    std::map<std::string, RPolicy> rpolicy_by_path;   // ... unless the path has its own
     unsigned fopen_fail_k = 0;      // the k-th fopen for writing fails (0 = never)
     unsigned fopen_w_calls = 0;
 
